@@ -161,9 +161,11 @@ fn roundtrip<T: Serialize + DeserializeOwned>(tyname: &str, honest: &T) {
         seq.push(!ds[k].outcome);
         sx::set_label("decode-flip");
         let nk = sx::n_decisions();
+        sx::dedupe(true);
         sx::force_seq(seq);
         let r = decode::<T>(&sb);
         sx::force_seq(vec![]);
+        sx::dedupe(false);
         if r.is_some() {
             eng::finding(&format!("C15 validation-ignored {}", tyname), &format!("{}: decode-time check #{} can fail and the value is still accepted", tyname, k), None, json!({"kind":"model"}));
             continue;
@@ -180,9 +182,11 @@ fn roundtrip<T: Serialize + DeserializeOwned>(tyname: &str, honest: &T) {
             seq2.push(!ds2[j].outcome);
             sx::set_label("decode-flip2");
             let (n2, nh2) = (sx::n_decisions(), sx::n_hashes());
+            sx::dedupe(true);
             sx::force_seq(seq2);
             let r2 = decode::<T>(&sb);
             sx::force_seq(vec![]);
+            sx::dedupe(false);
             if r2.is_some() {
                 let mut hy2 = eng::axioms();
                 hy2.extend(decisions_since(n2).iter().map(|d| d.cond.clone().with_outcome(d.outcome)));
